@@ -48,7 +48,7 @@ class World:
 
 def step(w, ri, tg):
     rng = w.rng
-    kind = rng.choice(["create", "create_id", "create_setter", "replace_rejected", "copy", "json", "xml", "attach", "remove", "replace", "replace_keep", "prune", "expand", "delete", "delete_nochildren"])
+    kind = rng.choice(["create", "create_id", "create_setter", "replace_rejected", "copy", "copy_leaf_history", "json", "xml", "attach", "remove", "replace", "replace_keep", "prune", "expand", "delete", "delete_nochildren"])
     nodes = w.all_nodes()
     if kind == "create":
         n = Node(rng.choice(["title", "para", "zz"]), content=rng.choice([None, "x"]))
@@ -83,6 +83,21 @@ def step(w, ri, tg):
                 p.replace_child(old, new, delete_old=True)
             except ValueError:
                 pass
+    elif kind == "copy_leaf_history":
+        # copy a childless node, let one of the pair grow, discard the other one: the two share nothing
+        src = Node(rng.choice(["title", "para"]), content="s")
+        w.add_tree(src)
+        cp = src.copy()
+        w.add_tree(cp)
+        grow, drop = (cp, src) if rng.random() < 0.5 else (src, cp)
+        kid = Node("emphasis", content="k"); kid.add_child(Node("subscript", content="2"))
+        w.add_tree(kid)
+        grow.add_child(kid); w.roots.remove(kid)
+        if drop.children:
+            raise AssertionError("a child attached to one of (node, its copy) shows up under the other as well")
+        w.roots.remove(drop)
+        w.forget_tree(drop)
+        Node.delete_node_instance(drop.id)
     elif kind == "copy" and nodes:
         src = rng.choice(nodes)
         w.add_tree(src.copy())
@@ -127,6 +142,9 @@ def step(w, ri, tg):
         gen.mutate(t, rng, tg, rng.choice([1, 2, 4]))
         if rng.random() < 0.15:
             t[1] = "zzUnknownRoot"
+        elif rng.random() < 0.2:
+            # a child the parent's rule allows but for which no element is known (eml/protocol, ...)
+            t = gen.ghost_tree(rng, tg) or t
         root = impl.build(t)
         w.add_tree(root)
         pruned = validate.prune(root, strict=rng.random() < 0.5)
@@ -180,6 +198,9 @@ def check(w):
     for k, n in exp.items():
         if Node.get_node_instance(k) is not n:
             return f"id {k} does not retrieve its node"
+    for n in w.all_nodes():
+        if store.get(n.id) is not n:
+            return f"node '{n.name}' is still part of a live tree but is not registered (a discarded node stayed attached, or a live one was unregistered)"
     ids = [n.id for n in w.all_nodes()]
     if len(ids) != len(set(ids)):
         return "two distinct live nodes carry the same id"
